@@ -16,6 +16,7 @@ R14.5  dirent layout: d_next@0 u64, d_ino@8 u64, d_namlen@16 u32, d_type@20 u8, 
 R14.6  error discipline of the path operations
 R14.7  every descriptor issued by path_open records a copy of the resolved path it was opened with (both generations, with and
        without the DIRECTORY flag): later relative paths and fd_readdir resolve against it
+R14.15 every successful fd_readdir path leaves the descriptor's directory stream in the table (earlier cookies stay resumable)
 """
 from .. import astdb, pe, wasi as W, wasi_oracle as O, runtime
 from ..astdb import kids, walk, AnalysisBroken
